@@ -54,16 +54,30 @@ package delegation
 // Raw record layer: one read / one write of one amount under the key it is given (assumed: rests on C09's State
 // contracts and T-SER round-tripping of Amount). dlgRaw(st)[k] is the amount stored under key k of the prefix.
 //@ model dlgRaw(*DelegationStore) array[string]int
-//@ assume func (*DelegationStore).Get
+// (Get/Set are additionally VERIFIED against the State, `claims`: the amount of key k lives under st.prefix ++ k; a successful
+// Set leaves exactly the serialised amount there and writes nothing else, a failed one writes nothing; Get decodes what is
+// visible under that key and answers 0 for an absent / empty record. Trusted per clause: dlgRaw(st)[k] IS that record.)
+//@ ghost func dlgRawKey(st *DelegationStore, k bytes) string = str(st.prefix) + str(k)
+//@ func (*DelegationStore).Get
+//@   assumes st != nil && st.state != nil && wfState(st.state)
 //@   modifies nothing
+//@   trustframe
 //@   ensures amt != nil && fresh(amt)
-//@   ensures err == nil ==> big(amt) == dlgRaw(st)[str(key)]
+//@   trusts err == nil ==> big(amt) == dlgRaw(st)[str(key)]
+//@   claims err == nil && !old(exhausted(st.state.cache)) && vHas(st.state)[dlgRawKey(st, key)] && len(vVal(st.state)[dlgRawKey(st, key)]) != 0 ==> big(amt) == deser(vVal(st.state)[dlgRawKey(st, key)], "balance.Amount")   // C11.raw-record
+//@   claims !old(exhausted(st.state.cache)) && vHas(st.state)[dlgRawKey(st, key)] && len(vVal(st.state)[dlgRawKey(st, key)]) == 0 ==> err == nil && big(amt) == 0   // C11.raw-record
 
-//@ assume func (*DelegationStore).Set
+//@ func (*DelegationStore).Set
 //@   requires amt != nil
+//@   assumes st != nil && st.state != nil && wfState(st.state)
+//@   assumes !tomb(ser(big(amt), "balance.Amount"))                                                           // A-NOTOMB a serialised record is never the deletion marker
 //@   modifies dlgRaw(st)[str(key)], vHas(st.state), vVal(st.state)
-//@   ensures err == nil ==> dlgRaw(st)[str(key)] == old(big(amt))
-//@   ensures err != nil ==> dlgRaw(st)[str(key)] == old(dlgRaw(st))[str(key)]
+//@   trustframe
+//@   trusts err == nil ==> dlgRaw(st)[str(key)] == old(big(amt))
+//@   trusts err != nil ==> dlgRaw(st)[str(key)] == old(dlgRaw(st))[str(key)]
+//@   claims err == nil ==> vHas(st.state)[dlgRawKey(st, key)] && vVal(st.state)[dlgRawKey(st, key)] == ser(old(big(amt)), "balance.Amount")   // C11.raw-record
+//@   claims err == nil ==> forall k string :: k != dlgRawKey(st, key) ==> vHas(st.state)[k] == old(vHas(st.state))[k] && vVal(st.state)[k] == old(vVal(st.state))[k]   // C11.raw-record
+//@   claims err != nil ==> vHas(st.state) == old(vHas(st.state)) && vVal(st.state) == old(vVal(st.state))   // C11.raw-record
 
 // Key formats of the four amount families (fmt.Sprintf with constant formats, modelled by the engine: T-FMT).
 //@ ghost func dlgVKey(v string) string = "_t_" + addrStr(v)
